@@ -32,6 +32,20 @@ CHECKS = {
        'The only failure mode is an exception or non-termination.',
   design_ref='DESIGN.md §4 C08',
   technique='CrossHair symbolic execution of real code + z3 (symbolic attribute strings), exception-freedom contract, replay'),
+ 'C13': dict(
+  text='Symbolic differential checking of the real extended_language_filter / match_lang against an RFC 4647 reference: '
+       'subtag contents are symbolic strings (solver-chosen), structure bounded (range <= 3 subtags, tag <= 4); the '
+       'language-inheritance walk is checked over every assignment of {absent, en, fr, empty, EN-us} to five ancestor '
+       'levels x <meta> pragma x HTML/XHTML/XML (bounded enumeration steered by the solver).',
+  design_ref='DESIGN.md §4 C13',
+  technique='CrossHair symbolic execution of real code + z3 (symbolic subtag strings), RFC 4647 reference oracle, replay'),
+ 'C20': dict(
+  text='Symbolic checking of the real get_pattern_context / SelectorSyntaxError for every pattern over {a,b,\\n,\\r} up to '
+       '4/7 characters and every offset incl. the end; every parser-raised error of a malformed-selector pool x multi-line '
+       'contexts must carry a (context,line,col) the reference derives from an in-range offset; DEBUG flag equivalence; '
+       'pretty() progress for every string over the repr alphabet (symbolic) and repr-equality on a selector pool.',
+  design_ref='DESIGN.md §4 C20',
+  technique='CrossHair symbolic execution of real code + z3 (symbolic patterns/offsets), reference line/column oracle, replay'),
 }
 
 NOT_APPLICABLE = {
